@@ -61,6 +61,8 @@ def dispatch (prop : String) (line : String) : Verdict :=
     | some "socklock" => SockE.runLock prop f obsS
     | some "sockcr" => SockE.runCr prop f obsS
     | some "holder" => HolderE.runHolder prop f obsS
+    | some "holdern" => HolderE.runHolder prop f obsS
+    | some "holdermiri" => HolderE.runMiri prop f obsS
     | some "mac" => MacrosE.runMac prop f obsS
     | some "macn" => MacrosE.runMac prop f obsS
     | some "mact" => MacrosE.runMact prop f obsS
